@@ -289,6 +289,8 @@ func (p *output) Start(_ pipeline.AnyConfig, params *pipeline.OutputPluginParams
 			for _, e := range events {
 				if st := o.byPtr[e]; st != nil {
 					st.givenUp = true
+				} else {
+					o.ackedPtr[e] = true // a child given up without a dead queue is finished like any other event
 				}
 			}
 		}
@@ -335,6 +337,8 @@ func (p *output) Out(e *pipeline.Event) {
 	if p.sync {
 		if st := o.byPtr[e]; st != nil {
 			st.acked = true
+		} else {
+			o.ackedPtr[e] = true // a child taken by the (synchronous) dead queue
 		}
 		p.ctl.Commit(e)
 		return
